@@ -412,6 +412,12 @@ def _run_u(case):
     Sig = np.asarray(case["m"]["Sigma"], float).copy()
     mu[np.array(uidx)] = np.asarray(case["new"]["mu"], float)
     Sig[np.array(uidx)] = np.asarray(case["new"]["Sigma"], float)
+    # (read-only queries before the update: anything they cache must not survive it)
+    import jax
+    key = jax.random.PRNGKey(len(uidx) + 7 * D + 13 * R)
+    lib(fails, "pre.sample", lambda: p.sample(key, 2))
+    lib(fails, "pre.get_marginal", lambda: p.get_marginal(jnp.array([D - 1])))
+    lib(fails, "pre.integrate", lambda: p.integrate("xx'"))
     ok, _ = lib(fails, "update", lambda: p.update(jnp.array(uidx), d))
     if not ok:
         return fails
@@ -432,6 +438,27 @@ def _run_u(case):
     ok, got = lib(fails, "update.integrate_x", lambda: p.integrate("x"))
     if ok:
         check(fails, "update:integrate_x", got, mu, (1 + np.abs(mu)) * kap)
+    # after update() the object behaves like a fresh object built from the new parameters, for every operation
+    from .. import objcmp
+    ok, fresh = lib(fails, "construct_fresh", libx.make_measure, case["kind"], {"Sigma": Sig, "mu": mu})
+    if ok:
+        dims = [D - 1] + ([0] if D > 1 else [])
+        W = np.tile(np.linspace(0.5, 1.5, D)[None, None, :], (R, 1, 1))
+        ops = {
+            "get_marginal": lambda o: o.get_marginal(jnp.array(dims)),
+            "linear_sum": lambda o: o.get_density_of_linear_sum(J(W)),
+            "entropy": lambda o: o.entropy(),
+            "sample": lambda o: o.sample(key, 3),
+            "integrate_xx": lambda o: o.integrate("xx'"),
+            "slice": lambda o: o.slice(jnp.arange(R)[::-1]),
+            "to_density": lambda o: o.get_density(),
+        }
+        if D > 1:
+            ops["condition_on"] = lambda o: o.condition_on(jnp.array([D - 1]))
+        for nm, fn in ops.items():
+            okb, ra, rb = objcmp.both(fails, f"update.then_{nm}", lambda: fn(p), lambda: fn(fresh))
+            if okb:
+                objcmp.compare(fails, f"update:then_{nm}", ra, rb, float(np.max(kap)) * 10, pts=None)
     # update(idx, d) replaces exactly the addressed components of the object it is called on: a slice (copy) of a
     # density is an object of its own, updating it must leave the source untouched
     mu0, Sig0 = np.asarray(case["m"]["mu"], float), np.asarray(case["m"]["Sigma"], float)
